@@ -1,23 +1,23 @@
 \* generated by lib/gen_cfgs.py from lib/props.py - do not edit
 SPECIFICATION Spec
 CONSTANTS
-  N = 3
-  NS = 2
+  N = 2
+  NS = 1
   NP = 0
-  NW = 0
+  NW = 1
   FIN = TRUE
   WEAK = TRUE
   DBG = TRUE
   MAXRC = 16382
   MAXWC = 32767
   MaxRoots = 2
-  MaxWRoots = 0
-  MaxOps = 6
-  MaxFaults = 1
-  MaxTraceK = 3
+  MaxWRoots = 2
+  MaxOps = 7
+  MaxFaults = 0
+  MaxTraceK = 0
   BUG_STALE_TC = FALSE
   BUG_NESTED_FLAGS = FALSE
-  OPS = {"clear", "clone", "clonef", "collect", "drop", "fagain", "mark", "new", "put", "set", "take", "unwrap"}
+  OPS = {"clone", "collect", "downgrade", "drop", "dropw", "new", "put", "sat", "unwrap", "upgrade"}
   AUTOF = TRUE
   AUTO0 = FALSE
   SZ = 152
